@@ -60,8 +60,10 @@ def main():
     if '--keep' in sys.argv and confirmed:
         dst = os.path.join(ROOT, 'seeded', name)
         os.makedirs(dst, exist_ok=True)
-        shutil.copy(patch, os.path.join(dst, 'patch.diff'))
-        shutil.copy(os.path.join(out, 'demo.py'), os.path.join(dst, 'demo.py'))
+        if os.path.abspath(patch) != os.path.abspath(os.path.join(dst, 'patch.diff')):
+            shutil.copy(patch, os.path.join(dst, 'patch.diff'))
+        if os.path.abspath(out) != os.path.abspath(dst):
+            shutil.copy(os.path.join(out, 'demo.py'), os.path.join(dst, 'demo.py'))
         meta.update({'breaks_property': meta.get('property', name.split('-')[0]), 'origin': 'independent sub-agent given only the property text and a scratch worktree',
                      'what_i_ran': 'scratch worktree of /repo HEAD under /tmp: git apply patch.diff; FSIC_REPO=<worktree> bin/baseline (repository tests); cd <worktree> && /venv/bin/python demo.py; ' + '; '.join(f'FSIC_REPO=<worktree> bin/check {c} --tier {tier}' for c in checks) + '; git checkout -- .; demo.py again; worktree removed (equivalent to git -C /repo apply / checkout, without touching /repo)',
                      'confirmation': {k: res[k] for k in ('tests_with_change', 'tests_pass_with_change', 'demo_with_change_rc', 'demo_without_change_rc')},
